@@ -36,6 +36,7 @@ RULE = (
     "refused promotion and >= 1 rejected stale write; processes: >= 1 refused promotion while another process was "
     "inside its round; distinct by hash of the case"
 )
+RULE += " Later additions (DESIGN.md 9): " + 'handle sequences may end with a crash inside a write followed by writes from every other handle; process bursts may contain cancel-jobs and several commands from one host, and the role must be cleared only by the process that took it.'
 ASSUMPTIONS = C.WORLD_ASSUMPTIONS + [
     "handles sub-case: operations run one after another (the cluster lock serialises them anyway); hosts are distinct "
     "per handle (JADE identifies a submitter by hostname)",
